@@ -1992,15 +1992,14 @@ public:
   template<class T>
   static void diff(std::vector<T>& v1, std::vector<T>& v2, std::vector<T>& v3)
   {
-    if (v2.size() == 0) append(v3, v1);
     std::sort(v1.begin(), v1.end());
     std::sort(v2.begin(), v2.end());
     size_t j = 0;
     for (size_t i = 0; i < v1.size(); i++)
     {
       if (i > 0 && v1[i] == v1[i - 1]) continue;
-      while (j < v2.size() - 1 && v2[j] < v1[i]) j++;
-      if (v2[j] != v1[i]) v3.push_back(v1[i]);
+      while (j < v2.size() && v2[j] < v1[i]) j++;
+      if (j == v2.size() || v2[j] != v1[i]) v3.push_back(v1[i]);
     }
   }
 
